@@ -122,7 +122,7 @@ def eval_atom(a, env):
     if isinstance(a, str):
         raise KeyError(a)
     op = a[0]
-    if op in ('load', 'strlen', 'ret', 'sym', 'opaque'):
+    if op in ('load', 'strlen', 'ret', 'sym', 'opaque', 'tbl'):
         raise KeyError(a)
     args = [eval_lin(x, env) if isinstance(x, Lin) else x for x in a[1:]]
     if op == 'and':
@@ -141,6 +141,8 @@ def eval_atom(a, env):
         return (args[0] << args[1]) & ((1 << args[2]) - 1)
     if op == 'lshr':
         return (args[0] & ((1 << args[2]) - 1)) >> args[1]
+    if op == 'ashr':
+        return args[0] >> args[1]
     if op == 'mod':       # value reduced modulo 2^bits (unsigned)
         return args[0] % (1 << args[1])
     if op == 'smod':      # value reduced to the signed range of bits
@@ -166,7 +168,7 @@ def base_atoms(l, out=None):
 
 
 def _base_atom(a, out):
-    if isinstance(a, str) or a[0] in ('load', 'strlen', 'ret', 'sym', 'opaque'):
+    if isinstance(a, str) or a[0] in ('load', 'strlen', 'ret', 'sym', 'opaque', 'tbl'):
         out.add(a)
         return
     for x in a[1:]:
